@@ -216,6 +216,14 @@ DECLS = [
     ("logical, parameter :: a = x <= y", "logical", "logical, parameter"),
     ("real, dimension(2, merge(2, 3, p < q)), target :: a", "real", "real, dimension(2, merge(2, 3, p < q)), target"),
 ]
+# (function statement, attributes, result type) - the prefix holds attributes and a type whose name may contain an attribute word
+PREFIXES = [
+    ("pure elemental real(8) function f(x)", ["pure", "elemental"], "real(kind=8)"),
+    ("type(pure_t) function f(x)", [], "type(pure_t)"),
+    ("recursive type(module_data) function f(x)", ["recursive"], "type(module_data)"),
+    ("impure elemental integer function f(x)", ["impure", "elemental"], "integer"),
+    ("double precision function f(x)", [], "double precision"),
+]
 
 
 def decl_search():
@@ -231,4 +239,14 @@ def decl_search():
         if got != (ft, fd):
             return {"confirmed": True, "input": {"declaration": decl}, "actual": {"full_type": got[0], "full_declaration": got[1]},
                     "expected": {"full_type": ft, "full_declaration": fd}, "how": "real parser on a one-declaration module; FortranVariable.full_type / full_declaration"}
+    for stmt, attrs, rtype in PREFIXES:
+        src = f"module m\n  type :: pure_t\n  end type pure_t\n  type :: module_data\n  end type module_data\ncontains\n  {stmt}\n    real :: x\n  end function f\nend module m\n"
+        try:
+            fn = realrun.parse_source(src).modules[0].functions[0]
+            got = (sorted(fn.attribs), fn.retvar.full_type)
+        except Exception as ex:
+            got = (f"{type(ex).__name__}: {ex}", "")
+        if got != (sorted(attrs), rtype):
+            return {"confirmed": True, "input": {"statement": stmt}, "actual": {"attributes": got[0], "result type": got[1]}, "expected": {"attributes": sorted(attrs), "result type": rtype},
+                    "how": "real parser; prefix of a function statement"}
     return None
